@@ -24,7 +24,7 @@ def native_bounds(repo, rep, rule):
         c04.run.__globals__  # noqa
         sub = Report("C04-internal")
         _run_c04_table(repo, sub)
-        neigh_ok = not sub.findings
+        neigh_ok = not [f for f in sub.findings if f.rule == 'R-C04-1']
     except AnalysisError:
         neigh_ok = False
     an = Analyzer(cf, neigh_ok)
